@@ -326,3 +326,54 @@ def ret_locals(f):
                                     changed = True
     f._cache["ret_locals"] = S
     return S
+
+
+from .terms import strip, RESULT_ADAPTERS
+
+
+def success_return_blocks(ctx, f, P=()):
+    """Blocks where the function's result may become a success: an `Ok(..)` stored into a return place (or an alias of
+    it after helper inlining), a call / awaited value stored into a return place whose outcome is not known to be an
+    error. The result of the persist call itself (possibly through wrap / map_err) is not a target: it is Ok exactly
+    when the backup succeeded."""
+    T = ctx.T(f)
+    RL = ret_locals(f)
+    out = []
+    for bi, b in enumerate(f.blocks):
+        for st in b["s"]:
+            if st["k"] != "assign" or st["p"].get("pr") or st["p"]["l"] not in RL:
+                continue
+            r = st["r"]
+            if r["k"] == "agg":
+                if r.get("variant") == "Ok" or (r.get("def") not in ("std::result::Result",) and r.get("variant") not in ("Err", "Ready", "Pending")):
+                    if r.get("variant") == "Ok":
+                        out.append(bi)
+                continue
+            if r["k"] == "use":
+                pl = r["o"].get("m") or r["o"].get("c")
+                if pl is not None and not pl.get("pr") and pl["l"] in RL:
+                    continue        # alias of another return place
+                if pl is not None and pl.get("pr") and pl["l"] in RL or (pl is not None and len(pl.get("pr", [])) == 2 and isinstance(pl["pr"][0], dict) and pl["pr"][0].get("d") == "Ready"):
+                    t = strip(T.rvalue(r), RESULT_ADAPTERS)
+                    if is_await_of(t, P):
+                        continue
+                    # the value of a spliced helper's return place arrives through its own assignments
+                    src = pl["l"]
+                    if all(s2["r"]["k"] == "agg" and s2["r"].get("def") == "std::task::Poll" for b2 in f.blocks for s2 in b2["s"] if s2["k"] == "assign" and not s2["p"].get("pr") and s2["p"]["l"] == src) and \
+                            not any(b2["t"]["k"] == "call" and not b2["t"]["dest"].get("pr") and b2["t"]["dest"]["l"] == src for b2 in f.blocks):
+                        continue
+                    out.append(bi)
+                    continue
+            if f.locals[st["p"]["l"]].s.startswith("std::result::Result<"):
+                out.append(bi)
+        t = b["t"]
+        if t["k"] == "call" and not t["dest"].get("pr") and t["dest"]["l"] in RL and "t" in t and f.locals[t["dest"]["l"]].s.startswith("std::result::Result<"):
+            if "decl" in t["f"] and f.callee(t)[0].qname == "std::ops::FromResidual::from_residual":
+                continue
+            ct = strip(T.call_term(t), RESULT_ADAPTERS)
+            if is_await_of(ct, P) or is_call_of(ct, P):
+                continue
+            out.append(t["t"])
+    return sorted(set(out))
+
+
